@@ -18,7 +18,8 @@ UNDECIDED = ["'exactly the records that match each question' as a set equality o
 
 def _answer_calls(fn):
     names = ("DnsOutgoing::add_answer_with_additionals", "DnsOutgoing::add_answer", "DnsOutgoing::add_answer_at_time",
-             "DnsOutgoing::add_additional_answer", "DnsOutgoing::add_answer_box", "service_daemon::add_answer_of_service")
+             "DnsOutgoing::add_additional_answer", "DnsOutgoing::add_answer_box", "service_daemon::add_answer_of_service",
+             "service_daemon::add_answer_of_service_with_host")
     return [(b, t) for b, t in fn.calls() if any(cname(t) == n or cname(t).endswith("::" + n) or cname(t).endswith(n) for n in names)]
 
 
@@ -302,7 +303,7 @@ def clause_f(ctx, P):
 def clause_g(ctx, P):
     """right values over rename histories: the records built to answer a question carry the names the service was
     renamed to (same F4 rule as C08d, restricted to the two answer builders)"""
-    n = f4.check_rename_taint(ctx, P, "C06g", only=lambda s: s.fn.short in ("add_answer_with_additionals", "add_answer_of_service"))
+    n = f4.check_rename_taint(ctx, P, "C06g", only=lambda s: s.fn.short in ("add_answer_with_additionals", "add_answer_of_service", "add_answer_of_service_with_host"))
     ctx.floor("C06g.F4.rename-args", n, 8, "renamable name arguments in the answer builders")
 
 
